@@ -39,7 +39,7 @@ reg("C09", "loaders fail cleanly on malformed or truncated files",
          "10 s CPU limit, watchdog, one re-run before a hang is declared); a returned object goes through basic queries, the "
          "C07 Db consistency rules, save and reload. distinct = (seed kind, instance, batch)",
     level="fault_enumeration",
-    require=dict(distinct=100, oracles=dict(quick={"loader-survives": 40000}, thorough={"loader-survives": 500000})),
+    require=dict(distinct=100, oracles=dict(quick={"loader-survives": 40000}, thorough={"loader-survives": 200000})),
     evidence_extra=_c09_extra,
     assumptions=["a child that answers (clean failure / object / exception) within the limits did not corrupt memory in a way "
                  "ASan's red zones and quarantine can see; far out-of-bounds and intra-object overflows are not detected",
